@@ -89,6 +89,10 @@ func MapTableSchemaStoreFromConfig(config []byte, useMySQL bool) (*MapTableSchem
 	if err := yaml.Unmarshal(config, &storeConfig); err != nil {
 		return nil, err
 	}
+	// an empty YAML document ("---") leaves the pointer nil: nothing is configured
+	if storeConfig == nil {
+		return NewMapTableSchemaStore()
+	}
 	if storeConfig.Defaults == nil {
 		storeConfig.Defaults = &defaultValues{}
 	}
@@ -100,7 +104,14 @@ func MapTableSchemaStoreFromConfig(config []byte, useMySQL bool) (*MapTableSchem
 	var mask SettingMask
 	mapSchemas := make(map[string]*tableSchema, len(storeConfig.Schemas))
 	for _, schema := range storeConfig.Schemas {
+		// an empty list item in YAML ("- ") is decoded as nil
+		if schema == nil {
+			return nil, ErrInvalidEncryptorConfig
+		}
 		for _, setting := range schema.EncryptionColumnSettings {
+			if setting == nil {
+				return nil, ErrInvalidEncryptorConfig
+			}
 			setting.applyDefaults(*storeConfig.Defaults)
 			if err := setting.Init(useMySQL); err != nil {
 				return nil, err
